@@ -21,7 +21,7 @@ ASSUMPTIONS = ["scheduling points are the facade's lock/condvar/spawn/sleep oper
 KINDS = [["subject", "subject"], ["subject", "behavior", 0], ["subject", "replay"]]
 
 
-def mk(kind, scripts, late, leaver, sched, react=None, leaver_first=False):
+def mk(kind, scripts, late, leaver, sched, react=None, leaver_first=False, closing=None):
     objs = [kind, ["pipe", ["hot", 0]]]
     init = [["sub", 0, 0]]
     threads = []
@@ -35,12 +35,21 @@ def mk(kind, scripts, late, leaver, sched, react=None, leaver_first=False):
         else:
             init.append(["sub", 2, 0])
         threads.append(["u", ["unsub", 2]])
-    if late:
+    fini = []
+    if late and closing is None:
         threads.append(["s", ["sub", 1, 0]])
-    scn = ["conc", ["objects"] + objs, ["init"] + init, ["threads"] + threads, ["fini"], ["sched"] + sched]
+    if closing is not None and closing.startswith("race-"):
+        # no producers: a thread closes the subject while another one subscribes U1 - whichever comes first, U1 ends with that terminal
+        threads.append(["s", ["sub", 1, 0]])
+        threads.append(["x", ["complete", 0] if closing == "race-c" else ["error", 0, 5]])
+    elif closing is not None:
+        # the producers' threads have finished; the subject is closed; only then does U1 subscribe: a ReplaySubject hands it every
+        # item ever pushed (once, in push order) and the terminal, a BehaviorSubject the terminal alone
+        fini = [["complete", 0] if closing == "c" else ["error", 0, 5], ["sub", 1, 0]]
+    scn = ["conc", ["objects"] + objs, ["init"] + init, ["threads"] + threads, ["fini"] + fini, ["sched"] + sched]
     if sched[0] == "dfs":
         scn.append(["want-choices"])
-    return {"scn": scn, "kind": kind[1], "scripts": scripts, "late": late, "leaver": leaver, "sched": sched}
+    return {"scn": scn, "kind": kind[1], "scripts": scripts, "late": late, "leaver": leaver, "sched": sched, "closing": closing}
 
 
 def scripts_for(rng, np, maxlen):
@@ -69,6 +78,11 @@ def generate(rng, tier, seed):
             lf = rng.random() < 0.5
             cases.append(mk(kind, scripts, late, leaver, ["random", base, 80 if thorough else 30], leaver_first=lf))
             cases.append(mk(kind, scripts, late, leaver, ["pct", 3, base, 40 if thorough else 12], leaver_first=lf))
+            if kind[1] in ("replay", "behavior") and rng.random() < 0.5:
+                cases.append(mk(kind, [], True, False, ["random", base, 400 if thorough else 150], closing=rng.choice(["race-c", "race-e"])))
+                cases.append(mk(kind, [], True, False, ["pct", 3, base, 300 if thorough else 100], closing=cases[-1]["closing"]))
+            if kind[1] in ("replay", "behavior") and rng.random() < 0.5:
+                cases.append(mk(kind, scripts, True, False, ["random", base, 20 if thorough else 8], closing=rng.choice(["c", "e"])))
     return cases
 
 
@@ -108,7 +122,29 @@ def judge_one(case, ob):
     logs, seqs = {}, []
     for u in (0, 1, 2):
         mine = [c for c in cbs if c[0] == u]
-        if any(c[1][0] != "n" for c in mine):
+        closing = case.get("closing")
+        if closing and closing.startswith("race-"):
+            if u == 2:
+                logs[u] = []
+                continue
+            want = closing[-1]
+            terms = [c[1][0] for c in mine if c[1][0] != "n"]
+            if terms != [want] or not mine or mine[-1][1][0] != want:
+                bad.append("the subject was closed with '%s' while U1 was subscribing: U%d received %s - it must end with that terminal, once" % (want, u, [c[1] for c in mine]))
+            logs[u] = []
+            continue
+        if closing:
+            terms = [c[1][0] for c in mine if c[1][0] != "n"]
+            if mine and (terms != [closing] or mine[-1][1][0] != closing):
+                bad.append("the subject was closed with '%s' after the producers had finished: U%d received terminals %s (exactly that one, last, expected)" % (closing, u, terms))
+            if u == 1 and not mine:
+                bad.append("U1 subscribed after the subject had been closed and received nothing at all")
+            if u == 1 and kind == "behavior":
+                if len(mine) != 1:
+                    bad.append("U1 subscribed to a closed BehaviorSubject and received %s (the stored terminal alone expected)" % [c[1] for c in mine])
+                logs[u] = []
+                continue
+        elif any(c[1][0] != "n" for c in mine):
             bad.append("U%d received a terminal %s" % (u, [c[1] for c in mine if c[1][0] != "n"]))
         vals = [int(c[1][1]) for c in mine if c[1][0] == "n"]
         logs[u] = vals
